@@ -126,6 +126,14 @@ func (fr *Frame) nativeModel(name string, callee *ssa.Function, c *ssa.CallCommo
 		vc.emit("(declare-fun " + pinv + " (Int) Int)")
 		vc.assert(forall([][2]string{{i, "Int"}}, "(! "+implies(rel(i), and(rel(app(perm, i)), eq(app(pinv, app(perm, i)), i), eq(newAt(i), oldAt(app(perm, i)))))+" :pattern ("+newAt(i)+") :pattern ("+app(perm, i)+"))"))
 		vc.assert(forall([][2]string{{j, "Int"}}, "(! "+implies(rel(j), and(rel(app(pinv, j)), eq(app(perm, app(pinv, j)), j), eq(newAt(app(pinv, j)), oldAt(j))))+" :pattern ("+oldAt(j)+") :pattern ("+app(pinv, j)+"))"))
+		{
+			// the first axiom again, reindexed by k = off+i (a logical consequence of it): contracts quantify over
+			// ABSOLUTE positions of the backing array (rebaseIndex), and `(select new k)` does not match the relative
+			// pattern `(select new (+ off i))`
+			k := vc.freshName("q_i")
+			pk := plus(sl.Off, app(perm, minus(k, sl.Off)))
+			vc.assert(forall([][2]string{{k, "Int"}}, "(! "+implies(in(k), and(in(pk), eq(sel(na, k), sel2(h, sl.Arr, pk))))+" :pattern ("+sel(na, k)+"))"))
+		}
 		if _, isPtr := under(et).(*types.Pointer); isPtr {
 			// a consequence of the permutation that the solver does not find by itself: no nil element before, none after
 			// (same syntactic shape as a contract's forallIn over s[i])
